@@ -183,8 +183,12 @@ Emitted(o, p, e) ==
               IN [o2 EXCEPT !.sent[p][e.to] = Append(@, e.m), !.pc[p] = PcAt(o, p) + 1]
     [] e.t = "EffectRequest" ->
          IF o.meta.entry = 0 THEN o
-         ELSE Chk(o, OpAt(o, e.p).op \in {"open", "use", "close"}, "C03", "ScriptFollowed",
-                  <<"effect requested where the script has", OpAt(o, e.p).op, e.p>>)
+         ELSE LET op == OpAt(o, e.p)
+                  \* ... or the script is at a select one of whose filters calls an effect builtin
+                  inFilter == op.op = "select" /\ \E i \in 1..Len(op.srcs) :
+                                 op.srcs[i].k = "recv" /\ op.srcs[i].body = "effect"
+              IN Chk(o, op.op \in {"open", "use", "close"} \/ inFilter, "C03", "ScriptFollowed",
+                     <<"effect requested where the script has", op.op, e.p>>)
     [] OTHER -> o
 
 RECURSIVE FoldEmitted(_, _, _)
@@ -356,7 +360,7 @@ FailedP(o, p) == o.res[p] # None /\ ~o.res[p][1].ok
 \* never started its timer and never will: a lost wake-up
 ReadyQ(o, p, src) ==
   IF src.k = "await" THEN src.t \in Pids /\ DoneP(o, src.t)
-  ELSE IF src.k = "timeout" THEN TRUE
+  ELSE IF src.k = "timeout" THEN Fires(src)
   ELSE SrcReady([mailbox |-> o.mbox[p], awaiting |-> o.known[p], sel |-> o.sel[p]], src, o.now)
 
 FromP(o, q, p) == SelectSeq(o.arrived[q], LAMBDA m : \E i \in 1..Len(o.sent[p][q]) : o.sent[p][q][i] = m)
